@@ -79,6 +79,12 @@ CHECKS = {
         text='The AST is aligned with the symbol-table tree; for every Name read the compiler says which scope owns the identifier, and every alternative supp returns must belong to that owner. The oracle is the compiler itself over hundreds of thousands of reads of real code plus generated nesting/shadowing/global/nonlocal shapes.',
         design_ref='DESIGN.md section 4 (C05)',
         note='Works around two artefacts of the 3.12 symtable module (blocks named "top" are mistaken for the module; inlined comprehension variables appear as function locals). Class-body reads of class-bound names are skipped as the property states. One listed finding (comprehension variable leaks), pinned by an existing test.'),
+    'C06': dict(
+        technique='property-based differential testing against CPython object model: Hypothesis class-hierarchy IR rendered to modules, executed by CPython (__mro__, vars(), instance __dict__) and compared with assist/location',
+        category='exploration',
+        text='Each generated hierarchy is written to disk, imported by CPython and inspected; for every probed expression form the proposals must contain all source-defined attributes along the MRO plus the instance dictionary, and go-to-definition must land where Python\'s lookup lands (last executed self-assignment among the assignment sites, else first MRO class). Empty proposals for a listed form are failures, so "evaluation returns nothing" cannot pass.',
+        design_ref='DESIGN.md section 4 (C06)',
+        note='Tree-shaped hierarchies only (no repeated ancestors); instance dictionaries are produced by calling plain methods in sorted-name order; unexecuted self-assignments are accepted as definitions (the statement leaves that open).'),
 }
 
 NOT_YET = 'check not built yet in this session (planned in DESIGN.md section 4); not claimed until its command exists'
